@@ -245,6 +245,7 @@ func main() {
 			default:
 				fmt.Fprintln(out, "unknown-op")
 			}
+			out.Flush() // one result per line, written whole: when the process dies the results so far are not lost
 		}
 		if err != nil {
 			break
@@ -314,7 +315,36 @@ class Batch:
         raise RuntimeError("render harness still does not build after dropping failing files")
 
     def run(self, lines, timeout=600):
-        return common.run_lines(self.bin, lines, timeout=timeout)
+        """One result line per input line.  The render process can die on an input (a fatal Go error such as stack exhaustion
+        by endless recursion cannot be recovered inside the harness): that input gets the result `crash:<first line of the
+        report>` — a failure of the rendered program, to be judged by the caller like any other status — and the remaining
+        lines are run in a fresh process.  After 6 deaths the remaining lines get `notrun` (callers drop them)."""
+        import subprocess
+        out, rest, deaths = [], list(lines), 0
+        while rest:
+            if deaths >= 6:
+                out.extend(["notrun"] * len(rest))
+                break
+            try:
+                p = subprocess.run([self.bin], input="\n".join(rest) + "\n", stdout=subprocess.PIPE, stderr=subprocess.PIPE,
+                                   text=True, timeout=timeout)
+                got = p.stdout.split("\n")
+                err = p.stderr
+            except subprocess.TimeoutExpired as e:
+                got = (e.stdout.decode("utf-8", "replace") if isinstance(e.stdout, bytes) else (e.stdout or "")).split("\n")
+                err = "timeout: the render process did not finish"
+            if got and got[-1] == "":
+                got.pop()
+            if len(got) >= len(rest):
+                out.extend(got[:len(rest)])
+                break
+            # the process died while working on line len(got) (a partial last line cannot occur: results are written whole)
+            deaths += 1
+            reason = next((l for l in err.split("\n") if l.strip()), "no report").strip()[:120].replace(" ", "_")
+            out.extend(got)
+            out.append("crash:" + reason)
+            rest = rest[len(got) + 1:]
+        return out
 
 
 def env_json(env, objs=None):
